@@ -100,6 +100,9 @@ func valuesEqual(a, b Value) (bool, bool) {
 		if a.Kind == b.Kind {
 			return true, true
 		}
+		if a.Kind == VTok || b.Kind == VTok {
+			return false, false // a domain token says nothing about nil-ness
+		}
 		// nil vs a known non-nil object
 		return false, true
 	}
@@ -270,6 +273,7 @@ type Interp struct {
 	Inlined   map[string]bool
 	loopLimit int
 	CondVal   Value // value of the atomic condition being refined (valid inside Domain.Cond)
+	recvOverride ast.Expr // receiver expression for the next inline (callbacks such as container/heap)
 }
 
 func NewInterp(p *Prog, d Domain) *Interp {
@@ -1669,6 +1673,18 @@ func (ip *Interp) inline(fr *Frame, st *State, call *ast.CallExpr, f *Func, args
 			}
 		}
 	}
+	if b, ok := ip.Dom.(Binder); ok && f.Decl != nil && f.Decl.Recv != nil && len(f.Decl.Recv.List) == 1 && len(f.Decl.Recv.List[0].Names) == 1 {
+		var recv ast.Expr
+		if ip.recvOverride != nil {
+			recv = ip.recvOverride
+		} else if sel, ok := ast.Unparen(call.Fun).(*ast.SelectorExpr); ok {
+			recv = sel.X
+		}
+		if recv != nil {
+			ns = b.Bind(ip, nf, ns, f.Info().ObjectOf(f.Decl.Recv.List[0].Names[0]), recv, fr)
+		}
+	}
+	ip.recvOverride = nil
 	rets := ip.runFrame(nf, ns)
 	var outs []Out
 	seen := map[string]bool{}
